@@ -139,6 +139,31 @@ func indexStrategies(n int, m *big.Int) []strategy {
 	return out
 }
 
+// aliasStrategies answer decompositions of the case's own index values that are wide enough to hold
+// value + modulus with the bits of that alias — for all such calls (nth = -1) or only for the nth one (a circuit may
+// decompose an index twice: once for a range check, once for the path). They never fire on a circuit that only
+// decomposes indices into fewer bits than the field has.
+func aliasStrategies(m *big.Int) []strategy {
+	var out []strategy
+	for _, nth := range []int{-1, 0, 1, 2} {
+		nth := nth
+		name := "Nalias+r(all calls)"
+		if nth >= 0 {
+			name = fmt.Sprintf("Nalias+r(call %d)", nth)
+		}
+		out = append(out, strategy{name, func(fired *int) rmon.Hints {
+			return rmon.Hints{rmon.NBitsID: rmon.NBitsNth(nil, 0, nth, func(v *big.Int, nn int) []*big.Int {
+				alt := new(big.Int).Add(v, m)
+				if nn < alt.BitLen() || v.BitLen() > 40 { // only index-sized values, only calls wide enough
+					return nil
+				}
+				return rmon.BitsOf(alt, nn)
+			}, fired)}
+		}, func(_ []*big.Int, valid bool) bool { return !valid }})
+	}
+	return out
+}
+
 // invZeroStrategies lie about the is-zero inverse.
 func invZeroStrategies(m *big.Int, seed int64) []strategy {
 	return []strategy{
